@@ -8,7 +8,7 @@ from .script_engine import Engine
 def clause_property(verdict, cfg):
     base = verdict.split("@")[0]
     integ = cfg["kind"] in ("avg", "sum")
-    if base in ("value", "range", "pull-raised", "notify-raised"):
+    if base in ("value", "value-missing", "range", "pull-raised", "notify-raised"):
         if cfg["limit"] != -1:
             return "C10"
         return "C12" if integ else "C11"
@@ -43,15 +43,15 @@ PLAN = {
         mc={"quick": [P("interp", 7, 4, (1, 2, 4), (1, 4, 9))],
             "thorough": [P("interp", 8, 5, (1, 2, 4), (1, 4, 9)), P("interpgrid", 7, 4, (2, 3), (1, 4))]},
         gen={"quick": [(P("interp", 5, 3, (2, 3), (1, 4)), None, 6000), (P("interp", 12, 6, (1, 2, 3, 4), (0, 3, 10)), 1500, 2500),
-                       (P("interpgrid", 10, 5, (1, 2, 4), (1, 6)), 500, 800)],
-             "thorough": [(P("interp", 5, 3, (2, 3, 4), (1, 4)), None, None), (P("interp", 14, 7, (1, 2, 3, 4), (0, 3, 10)), 15000, None),
+                       (P("interpgrid", 10, 5, (1, 2, 4), (1, 6)), 500, 800), (P("interphole", 12, 6, (1, 2, 3), (1, 6)), 800, 1200)],
+             "thorough": [(P("interphole", 14, 7, (1, 2, 3), (1, 6)), 8000, None), (P("interp", 5, 3, (2, 3, 4), (1, 4)), None, None), (P("interp", 14, 7, (1, 2, 3, 4), (0, 3, 10)), 15000, None),
                           (P("interpgrid", 12, 6, (1, 2, 3, 4), (1, 6)), 8000, None)]}),
     "C12": dict(
         mc={"quick": [P("integ", 7, 4, (1, 2), (1, 4))],
             "thorough": [P("integ", 8, 4, (1, 2, 4), (1, 4, 9)), P("integgrid", 7, 4, (2, 3), (1, 4))]},
         gen={"quick": [(P("integ", 5, 3, (2, 3), (1, 4)), None, 6000), (P("integ", 12, 6, (1, 2, 3, 4), (0, 3, 10)), 1500, 2500),
-                       (P("integgrid", 10, 5, (1, 2, 4), (1, 6)), 400, 600)],
-             "thorough": [(P("integ", 5, 3, (2, 3), (1, 4)), None, None), (P("integ", 14, 7, (1, 2, 3, 4), (0, 3, 10)), 15000, None),
+                       (P("integgrid", 10, 5, (1, 2, 4), (1, 6)), 400, 600), (P("integhole", 12, 6, (1, 2, 3), (1, 6)), 1000, 1500)],
+             "thorough": [(P("integhole", 14, 7, (1, 2, 3), (1, 6)), 10000, None), (P("integ", 5, 3, (2, 3), (1, 4)), None, None), (P("integ", 14, 7, (1, 2, 3, 4), (0, 3, 10)), 15000, None),
                           (P("integgrid", 12, 6, (1, 2, 3, 4), (1, 6)), 8000, None)]}),
     "C10": dict(
         mc={"quick": [P("spill", 6, 3, (2,), (1, 4))],
